@@ -121,16 +121,13 @@ def Rpc.tickSeeded (s : Rpc) : Rpc × List REv :=
 /-! ### the timed layer: clock advances instead of bare ticks -/
 
 inductive TOp where
-  | request (chain : Bool)
-  | notify
-  | response (id : Int) (code : Int)
+  | op (o : Op)                        -- any API call / arriving message (a bare `.tick` is ignored here:
+                                       --   in the timed layer ticks come from the clock only)
   | adv (ms : Nat)                     -- the clock advances and the loop runs
 deriving Repr, DecidableEq
 
 def stepT (s : Rpc) : TOp → Rpc × List REv
-  | .request c => s.request c
-  | .notify => (s, [.sent 0])
-  | .response id code => s.respond id code
+  | .op o => if o = .tick then (s, []) else step s o
   | .adv ms => s.advance ms
 
 def runT (s : Rpc) : List TOp → Rpc × List REv
@@ -166,58 +163,36 @@ def logT (s : Rpc) : List TOp → List TickRec
 /-- the timer's phase is sane: while enabled, its expiry lies in the next interval -/
 def TimeInv (s : Rpc) : Prop := s.timerOn = true → s.now < s.due ∧ s.due ≤ s.now + 1000
 
-/-! ### server half: op sequences and what must be sent -/
+/-! ### scripts without `cleanup()` -/
 
-inductive SOp where
-  | recv (id : Int) (svc : Service)     -- a request arrives
-  | respond (id code : Int)             -- the application calls respond()
-  | tick                                -- the respond_timeout_ timer fires
-deriving Repr, DecidableEq
+def Act.noCleanup : Act → Prop
+  | .cleanup => False
+  | _ => True
 
-def Srv.step (s : Srv) : SOp → Srv × List SEv
-  | .recv id svc => s.recvRequest id svc
-  | .respond id code => s.respond id code
-  | .tick => (s.tick, [])
+instance (a : Act) : Decidable a.noCleanup := by cases a <;> (unfold Act.noCleanup; exact inferInstance)
 
-def Srv.run (s : Srv) : List SOp → Srv × List SEv
-  | [] => (s, [])
-  | op :: ops =>
-    let r1 := s.step op
-    let r2 := Srv.run r1.1 ops
-    (r2.1, r1.2 ++ r2.2)
+/-- no callback script of the program calls `cleanup()` -/
+def Prog.safe (p : Prog) : Prop :=
+  (∀ sc ∈ p.cbs, ∀ a ∈ sc, a.noCleanup) ∧ (∀ h ∈ p.hs, ∀ a ∈ h.acts, a.noCleanup)
 
-/-- responses sent with id `i` -/
-def sentCount (i : Int) : List SEv → Nat
-  | [] => 0
-  | .sent j _ :: es => (if j = i then 1 else 0) + sentCount i es
-  | .called _ :: es => sentCount i es
+/-- the op sequence does not call `cleanup()` at top level -/
+def NoCleanupOps (ops : List Op) : Prop := ∀ op ∈ ops, op ≠ .cleanup
 
-/-- the responses with id `i` the op sequence calls for: one per request to a synchronous
-service (unless it is a notification), one error per request to an unknown method, one per
-`respond()` call of the application (id 0 excepted) — and nothing else -/
-def expectedSends (i : Int) : List SOp → Nat
-  | [] => 0
-  | .recv j (.sync _) :: ops => (if j = i ∧ j ≠ 0 then 1 else 0) + expectedSends i ops
-  | .recv j .unknown :: ops => (if j = i then 1 else 0) + expectedSends i ops
-  | .recv _ .async :: ops => expectedSends i ops
-  | .respond j _ :: ops => (if j = i ∧ j ≠ 0 then 1 else 0) + expectedSends i ops
-  | .tick :: ops => expectedSends i ops
+/-! ### two peers: the op sequence one peer sees of a world run -/
 
-/-! ### two peers: what the client sees of a world run -/
-
-def clientOp (w : World) : WOp → List Op
-  | .request c _ => [.request c]
-  | .notify _ => [.notify]
-  | .deliver false i =>
-    match w.s2c[i]? with
-    | some m => [.response m.1 m.2]
-    | none => []
-  | .ctick => [.tick]
+/-- ops applied to peer b (`onB = true`) or a by one world op -/
+def peerOp (w : World) (onB : Bool) : WOp → List Op
+  | .api b op => if b = onB then [op] else []
+  | .deliver toB i =>
+    if toB = onB then
+      (match (if toB then w.ab[i]? else w.ba[i]?) with
+       | some m => [m.op]
+       | none => [])
+    else []
   | _ => []
 
-/-- the client-side op sequence a world run amounts to, whatever the server and the pipe do -/
-def clientOps (w : World) : List WOp → List Op
+def peerOps (w : World) (onB : Bool) : List WOp → List Op
   | [] => []
-  | op :: ops => clientOp w op ++ clientOps (w.step op).1 ops
+  | op :: ops => peerOp w onB op ++ peerOps (w.step op).1 onB ops
 
 end Tbox.C14
